@@ -1,7 +1,7 @@
 (* Lemmas for C11: the PythonDict filter engine model refines the row predicate of Spec/Filter.v. *)
 From Coq Require Import List String ZArith Bool Ascii Arith Lia Permutation.
 Import ListNotations.
-Require Import MV.Spec.Filter MV.Model.FilterPyDict MV.Model.FilterArrow.
+Require Import MV.Spec.Filter MV.Spec.FilterPlan MV.Model.FilterPyDict MV.Model.FilterArrow.
 Open Scope Z_scope.
 
 (* ---------- comparison facts ---------- *)
@@ -304,19 +304,99 @@ Proof.
     + assert (Ascii.eqb b a = false) as -> by (apply Ascii.eqb_neq; congruence). reflexivity.
 Qed.
 
-Lemma arrow_regex_anchored_l : forall p s, caret p = true -> arrow_regex_holds p (VStr s) = holds (CRegex p) (VStr s).
+Lemma search_anchored_l : forall p s, caret p = true -> search p s = matches p s.
 Proof.
-  intros [c l d] s H; simpl in *. subst c. unfold arrow_matches, matches; simpl.
+  intros [c l d] s H; simpl in *. subst c. unfold search, matches; simpl.
   destruct d; simpl.
   - now rewrite prefix_len_eqb.
   - now rewrite andb_true_r.
 Qed.
 
-Lemma arrow_regex_partial_l : forall p s,
-  kf_arrow_regex p = false -> arrow_regex_holds p (VStr s) = holds (CRegex p) (VStr s).
-Proof. intros p s H. apply arrow_regex_anchored_l. unfold kf_arrow_regex in H. now destruct (caret p). Qed.
+(* the PyArrow regex filter keeps exactly the rows the predicate keeps, for every pattern of the family *)
+Lemma arrow_regex_refines_l : forall p s, arrow_regex_holds p (VStr s) = holds (CRegex p) (VStr s).
+Proof.
+  intros p s. simpl. unfold arrow_matches, anchored.
+  destruct (caret p) eqn:E.
+  - now apply search_anchored_l.
+  - rewrite search_anchored_l by reflexivity. reflexivity.
+Qed.
 
+Lemma arrow_regex_null_l : forall p, arrow_regex_holds p VNull = holds (CRegex p) VNull.
+Proof. reflexivity. Qed.
+
+(* why the anchoring matters: plain search semantics (the engine before d2087b7) is a different predicate *)
 Definition wit_pat : pattern := {| caret := false; lit := "a"; dollar := false |}.
-Lemma arrow_regex_refuted_l :
-  kf_arrow_regex wit_pat = true /\ arrow_regex_holds wit_pat (VStr "ba") = true /\ holds (CRegex wit_pat) (VStr "ba") = false.
+Lemma search_differs_l : search wit_pat "ba" = true /\ holds (CRegex wit_pat) (VStr "ba") = false /\ arrow_regex_holds wit_pat (VStr "ba") = false.
 Proof. vm_compute. auto. Qed.
+
+(* ---------- exported plans: the glue condition is sufficient ---------- *)
+Lemma value_eqb_eq : forall a b, value_eqb a b = true -> a = b.
+Proof.
+  destruct a, b; simpl; intros H; try discriminate; try reflexivity.
+  - apply Z.eqb_eq in H. now subst.
+  - apply andb_true_iff in H. destruct H as [H1 H2]. apply Z.eqb_eq in H1. apply Nat.eqb_eq in H2. now subst.
+  - apply String.eqb_eq in H. now subst.
+Qed.
+Lemma ovalue_eqb_eq : forall a b, ovalue_eqb a b = true -> a = b.
+Proof. destruct a, b; simpl; intros H; try discriminate; try reflexivity. now rewrite (value_eqb_eq _ _ H). Qed.
+Lemma values_eqb_eq : forall a b, values_eqb a b = true -> a = b.
+Proof.
+  induction a as [|x a IH]; destruct b as [|y b]; simpl; intros H; try discriminate; try reflexivity.
+  apply andb_true_iff in H. destruct H as [H1 H2]. now rewrite (value_eqb_eq _ _ H1), (IH _ H2).
+Qed.
+Lemma ovalues_eqb_eq : forall a b, ovalues_eqb a b = true -> a = b.
+Proof. destruct a, b; simpl; intros H; try discriminate; try reflexivity. now rewrite (values_eqb_eq _ _ H). Qed.
+Lemma filt_eqb_eq : forall f g, filt_eqb f g = true -> f = g.
+Proof.
+  intros [c1 t1 [v1 vs1 mn1 mx1 e1]] [c2 t2 [v2 vs2 mn2 mx2 e2]]. unfold filt_eqb, params_eqb; simpl. intros H.
+  apply andb_true_iff in H. destruct H as [H Hp]. apply andb_true_iff in H. destruct H as [Hc Ht].
+  apply andb_true_iff in Hp. destruct Hp as [Hp He]. apply andb_true_iff in Hp. destruct Hp as [Hp Hmx].
+  apply andb_true_iff in Hp. destruct Hp as [Hp Hmn]. apply andb_true_iff in Hp. destruct Hp as [Hv Hvs].
+  apply String.eqb_eq in Hc. subst c2.
+  assert (t1 = t2) by (destruct t1, t2; simpl in *; try discriminate; reflexivity). subst t2.
+  rewrite (ovalue_eqb_eq v1 v2 Hv), (ovalues_eqb_eq vs1 vs2 Hvs), (ovalue_eqb_eq mn1 mn2 Hmn), (ovalue_eqb_eq mx1 mx2 Hmx).
+  now rewrite (eqb_prop e1 e2 He).
+Qed.
+Lemma memf_in : forall f l, memf f l = true -> In f l.
+Proof.
+  intros f l H. unfold memf in H. apply existsb_exists in H. destruct H as [g [Hg He]].
+  now rewrite (filt_eqb_eq _ _ He).
+Qed.
+
+Lemma glue_okb_sound_l : forall cols names fsS fs, glue_okb cols names fsS fs = true ->
+  (forall f, In f fsS -> In f fs /\ applicable cols f = true) /\
+  (forall f, In f fs -> applicable cols f = true -> In f fsS) /\
+  (forall f, In f fsS -> applicable names f = true).
+Proof.
+  intros cols names fsS fs H. unfold glue_okb in H.
+  apply andb_true_iff in H. destruct H as [H H3]. apply andb_true_iff in H. destruct H as [H1 H2].
+  rewrite forallb_forall in H1, H2, H3. repeat split.
+  - specialize (H1 f H). apply andb_true_iff in H1. apply memf_in. tauto.
+  - specialize (H1 f H). apply andb_true_iff in H1. tauto.
+  - intros f Hf Ha. specialize (H2 f Hf). rewrite Ha in H2. simpl in H2. now apply memf_in.
+  - exact H3.
+Qed.
+
+Lemma glue_sufficient_l : forall cols names fsS fs t,
+  glue_okb cols names fsS fs = true ->
+  (forall f, In f fsS -> fineb f t = true) ->
+  apply_single_filters names (Some fsS) t = Ok (expected cols fs t).
+Proof.
+  intros cols names fsS fs t Hg Hf.
+  destruct (glue_okb_sound_l _ _ _ _ Hg) as (G1 & G2 & G3).
+  simpl. rewrite apply_list_conj_l by (intros f Hin _; now apply Hf).
+  unfold expected. f_equal. apply filter_ext. intros r.
+  apply eq_true_iff_eq. unfold sat_all. rewrite !forallb_forall. split; intros H f Hin.
+  - destruct (applicable cols f) eqn:Ha; [|reflexivity]. simpl.
+    pose proof (G2 f Hin Ha) as HinS. specialize (H f HinS). now rewrite (G3 f HinS) in H.
+  - destruct (G1 f Hin) as [Hfs Ha]. specialize (H f Hfs). rewrite Ha in H. simpl in H. rewrite H. apply orb_true_r.
+Qed.
+
+(* and necessary in this sense: a step whose feature names lack the column of an effective filter returns rows the
+   predicate rejects (what happens when the filter feature lands in another feature set) *)
+Lemma glue_skip_refutes_l :
+  let f := {| f_col := "c"%string; f_type := FMin; f_par := {| p_value := Some (VInt 2); p_values := None; p_min := None; p_max := None; p_excl := false |} |} in
+  let t := [[("id"%string, VInt 0); ("c"%string, VInt 1)]; [("id"%string, VInt 1); ("c"%string, VInt 2)]] in
+  glue_okb ["id"%string; "c"%string] ["id"%string] [f] [f] = false /\
+  apply_single_filters ["id"%string] (Some [f]) t = Ok t /\ expected ["id"%string; "c"%string] [f] t <> t.
+Proof. vm_compute. repeat split. discriminate. Qed.
